@@ -32,6 +32,7 @@
   "callee error ≤ 1" of the tdiv_q theorems (Props/C02_tdivq.lean, which hold for every callee error e ≤ 3) for this callee.
 -/
 import MpirProofs.Lemmas.DcDivappr
+import MpirProofs.Lemmas.TdivQ
 namespace Mpir.DcDivappr
 open Mpir
 
@@ -178,6 +179,31 @@ theorem dc_divappr_q_ok (T C : Nat) (n d : List Nat) (hT : 6 ≤ T) (hC : 3 ≤ 
   rcases c5 with h | h
   · left; rw [← h]; ring
   · right; rw [← h]; ring
+
+/-- The model of the repaired mpn_dc_divappr_q IS one of the callee oracles over which the mpn_tdiv_q theorems quantify
+    (Props/C02_tdivq.lean: `tdiv_q_contract` etc. hold for every callee error e ≤ 3 through `TdivQ.quotOracle e`): on its
+    domain its quotient limbs and high limb are `quotOracle e` for some e ≤ 1.  So for the generic-C path through
+    mpn_dc_divappr_q the tdiv_q theorems need no assumption about this callee. -/
+theorem dc_divappr_q_oracle (T C : Nat) (n d : List Nat) (hT : 6 ≤ T) (hC : 3 ≤ C) (hdn : 6 ≤ d.length)
+    (hnn : d.length + 3 ≤ n.length) (hnorm : B / 2 ≤ d.getD (d.length - 1) 0) (hn : Limbs n) (hd : Limbs d)
+    (hsize : 2 * d.length + 2 ≤ B) :
+    ∃ e, e ≤ 1 ∧ TdivQ.quotOracle e n d = ((dc_divappr_q true T C n d).1, (dc_divappr_q true T C n d).2.2.1) := by
+  obtain ⟨n1, n2, _⟩ := DcDiv.norm_val d hd (by omega) hnorm
+  obtain ⟨_, c2, _, _, c5⟩ := dcDivappr_contract T C n.length d.length (val n) (val d) hT hC hdn hnn n1 n2 (val_lt n hn) hsize
+  obtain ⟨tv, tl, tL⟩ := SbDivQ.toLimbs_spec' (n.length - d.length) (dcDivappr true T C sbLeaf n.length d.length (val n) (val d)).q
+  rw [Nat.mod_eq_of_lt c2] at tv
+  have hcall : ∀ e, (dcDivappr true T C sbLeaf n.length d.length (val n) (val d)).qh * B ^ (n.length - d.length)
+      + (dcDivappr true T C sbLeaf n.length d.length (val n) (val d)).q = val n / val d + e →
+      TdivQ.quotOracle e n d = ((dc_divappr_q true T C n d).1, (dc_divappr_q true T C n d).2.2.1) := by
+    intro e he
+    have e1 : (dc_divappr_q true T C n d).1
+        = toLimbs (n.length - d.length) (dcDivappr true T C sbLeaf n.length d.length (val n) (val d)).q := rfl
+    have e2 : (dc_divappr_q true T C n d).2.2.1 = (dcDivappr true T C sbLeaf n.length d.length (val n) (val d)).qh := rfl
+    rw [e1, e2]
+    exact TdivQ.oracle_complete e n d _ _ tL tl (by rw [tv]; exact he)
+  rcases c5 with h | h
+  · exact ⟨0, by omega, hcall 0 (by rw [h, Nat.add_zero])⟩
+  · exact ⟨1, by omega, hcall 1 h⟩
 
 /-- mpn_dc_div_q (qp, np, nn, dp, dn, dinv), dc_div_q.c:31-76, UNCONDITIONALLY for the generic C: with the callee
     mpn_dc_divappr_q (wp, tp, nn + 1, dp, dn, dinv) on tp = N·B as modelled above (repaired C), the result is exactly ⌊N/D⌋.
